@@ -25,6 +25,11 @@ func init() {
 				out = append(out, runC20(genProgFields(r, cfg)))
 			}
 			// restored fields: documents x configurations (accepted ones only)
+			// corpus: two same-named keys that both accept the value
+			if cs, ok := runC20Restored(UCase{Cfg: UCfg{Defs: []UDef{{Kind: "k1", Keys: []int{2, 39}}}, Reg: []int{0}},
+				Doc: &UDoc{Msg: "m", Kind: "k1", Fields: map[string]int{"n": 7, "s": 1}}}); ok {
+				out = append(out, cs)
+			}
 			nr := n / 2
 			for i := 0; i < nr*3 && nr > 0; i++ {
 				c := UCase{Cfg: genUCfg(r), Doc: genUDoc(r, 0)}
